@@ -100,11 +100,28 @@ inductive Res (α : Type) where
   | panic
 deriving Repr, DecidableEq
 
-/-- `convert::from_range`: two `from_pos` and `TextRange::new` (asserts start ≤ end) -/
+/-- `convert::from_pos`: a line beyond the document is an error; a column beyond the end of the
+line is clamped to the line end (LSP rule); then `pos_for_line_col` -/
+def LineMap.fromPos (m : LineMap) (line col : Nat) : Res Nat :=
+  if line > m.lastLine then .err
+  else
+    match m.endColForLine line with
+    | none => .panic
+    | some ec =>
+      match m.posForLineCol line (min col ec) with
+      | some p => .ok p
+      | none => .panic
+
+/-- `convert::from_range`: two `from_pos`; a reversed range is an error -/
 def LineMap.fromRange (m : LineMap) (sl sc el ec : Nat) : Res (Nat × Nat) :=
-  match m.posForLineCol sl sc, m.posForLineCol el ec with
-  | some a, some b => if a ≤ b then .ok (a, b) else .panic
-  | _, _ => .panic
+  match m.fromPos sl sc with
+  | .err => .err
+  | .panic => .panic
+  | .ok a =>
+    match m.fromPos el ec with
+    | .err => .err
+    | .panic => .panic
+    | .ok b => if a ≤ b then .ok (a, b) else .err
 
 /-- split a text at a byte offset; `none` when the offset is not a character boundary or is
 beyond the end (Rust: slicing panics) -/
@@ -118,9 +135,15 @@ def splitAtByte : List Char → Nat → Option (List Char × List Char)
       | none => none
     else none
 
-/-- `Vfs::change_file_content` with `Some(range)`; the text is the normalised stored text -/
+/-- is the byte offset a character boundary of the text (`str::is_char_boundary`)? -/
+def isBoundary (s : List Char) (n : Nat) : Bool := (splitAtByte s n).isSome
+
+/-- `Vfs::change_file_content` with `Some(range)`; the text is the normalised stored text.  The two
+`ensure!`s reject a range beyond the text or off a character boundary; slicing then cannot panic
+(`change_never_panics`), the `.panic` branch is kept to mirror the code. -/
 def changeFileContent (s : List Char) (a b : Nat) (ins : List Char) : Res (List Char) :=
   if b > u8sum s then .err
+  else if !(isBoundary s a && isBoundary s b) then .err
   else
     match splitAtByte s a, splitAtByte s b with
     | some (pre, _), some (_, post) => .ok (stripCR (pre ++ ins ++ post))
